@@ -234,3 +234,117 @@ func cmdReplay(args []string) int {
 	fmt.Println("NOT REPRODUCED")
 	return 0
 }
+
+// validateWitnesses replays one concrete witness per run natively (the inputs of the first required
+// reach marker): the real build must pass every assertion the engine discharged on that path.
+// Returns the number of agreeing witnesses and a list of disagreements.
+func validateWitnesses(results []*RunResult, ld *Loaded) (int, []string) {
+	type wit struct {
+		run, fn, file string
+	}
+	byPkg := map[string][]wit{}
+	work := filepath.Join(verifDir, ".work", fmt.Sprintf("witness-%d-%d", os.Getpid(), time.Now().UnixNano()))
+	os.MkdirAll(work, 0o755)
+	defer os.RemoveAll(work)
+	for _, r := range results {
+		var nv []NondetVal
+		found := false
+		for _, id := range r.Spec.Reach {
+			if s, ok := r.Ex.reachSample[id]; ok {
+				nv, found = s, true
+				break
+			}
+		}
+		if !found {
+			continue
+		}
+		v := &Violation{Property: r.Cfg.Property, Harness: r.Spec.Fn, Pkg: r.Spec.Pkg, Site: "witness", Nondets: nv, Params: r.Cfg.Params}
+		file := filepath.Join(work, sanitize(r.Spec.Name)+".json")
+		writeJSON(file, v)
+		byPkg[r.Spec.Pkg] = append(byPkg[r.Spec.Pkg], wit{r.Spec.Name, r.Spec.Fn, file})
+	}
+	ok := 0
+	var bad []string
+	for pkg, ws := range byPkg {
+		rel := pkgRel(pkg)
+		name := pkgNameOf(ld, pkg)
+		var sb strings.Builder
+		fmt.Fprintf(&sb, "//go:build verif\n\npackage %s\n\nimport (\n\t\"fmt\"\n\t\"testing\"\n\t\"time\"\n\n\tverifrt \"%s\"\n)\n\n", name, verifrtPath)
+		sb.WriteString("func TestVerifWitness(t *testing.T) {\n\tws := []struct {\n\t\trun, file string\n\t\tfn func()\n\t}{\n")
+		for _, w := range ws {
+			fmt.Fprintf(&sb, "\t\t{%q, %q, %s},\n", w.run, w.file, w.fn)
+		}
+		sb.WriteString(`	}
+	for _, w := range ws {
+		verifrt.LoadFile(w.file)
+		done := make(chan string, 1)
+		go func() {
+			defer func() {
+				if r := recover(); r != nil {
+					if _, ok := r.(verifrt.ReplayEnd); ok {
+						done <- ""
+						return
+					}
+					done <- fmt.Sprintf("panic: %v", r)
+					return
+				}
+				done <- ""
+			}()
+			w.fn()
+		}()
+		pan, hung := "", false
+		select {
+		case pan = <-done:
+		case <-time.After(8 * time.Second):
+			hung = true
+		}
+		fmt.Printf("VERIF-WITNESS run=%s failures=%q invalid=%q panic=%q hung=%v\n", w.run, verifrt.Failures, verifrt.Invalid, pan, hung)
+		if hung {
+			break
+		}
+	}
+}
+`)
+		testPath := filepath.Join(work, sanitize(rel)+"_witness_test.go")
+		os.WriteFile(testPath, []byte(sb.String()), 0o644)
+		repl := map[string]string{}
+		hdir := filepath.Join(verifDir, "harness")
+		filepath.Walk(hdir, func(p string, info os.FileInfo, err error) error {
+			if err == nil && !info.IsDir() && strings.HasSuffix(p, ".go") {
+				r, _ := filepath.Rel(hdir, p)
+				repl[filepath.Join(repoDir, r)] = p
+			}
+			return nil
+		})
+		repl[filepath.Join(repoDir, rel, "zz_verif_witness_test.go")] = testPath
+		ovPath := filepath.Join(work, sanitize(rel)+"_overlay.json")
+		data, _ := json.Marshal(map[string]any{"Replace": repl})
+		os.WriteFile(ovPath, data, 0o644)
+		ctx, cancel := context.WithTimeout(context.Background(), 600*time.Second)
+		cmd := exec.CommandContext(ctx, "go", "test", "-tags", "verif", "-vet=off", "-count=1", "-v", "-run", "^TestVerifWitness$", "-overlay", ovPath, "./"+rel)
+		cmd.Dir = repoDir
+		cmd.Env = append(os.Environ(), "GOFLAGS=-mod=mod", "GOPROXY=off", "GOSUMDB=off", "GOTOOLCHAIN=local", "VERIF_REPLAY="+ws[0].file)
+		outb, _ := cmd.CombinedOutput()
+		cancel()
+		seen := map[string]bool{}
+		for _, l := range strings.Split(string(outb), "\n") {
+			if !strings.HasPrefix(l, "VERIF-WITNESS ") {
+				continue
+			}
+			f := strings.Fields(l)
+			run := strings.TrimPrefix(f[1], "run=")
+			seen[run] = true
+			if strings.Contains(l, "failures=[]") && strings.Contains(l, "invalid=[]") && strings.Contains(l, `panic=""`) && strings.Contains(l, "hung=false") {
+				ok++
+			} else {
+				bad = append(bad, fmt.Sprintf("run %s: the real build disagrees with the engine on a concrete witness: %s", run, l))
+			}
+		}
+		for _, w := range ws {
+			if !seen[w.run] {
+				bad = append(bad, fmt.Sprintf("run %s: witness replay produced no result (%s)", w.run, firstLine(tail(string(outb), 300))))
+			}
+		}
+	}
+	return ok, bad
+}
